@@ -2,7 +2,7 @@
 from ..core import graph, Call, peel, leaves, show, N
 from ..util import *
 from ..atomic import atomic_method
-from .cb_common import CB, CRATE, STATE_ENUM, check_no_evict_in_half_open
+from .cb_common import CB, CRATE, STATE_ENUM, check_no_evict_in_half_open, check_window_dispatch
 
 EXPLANATION = (
     "History equivalence with the documented machine (window arithmetic, rates vs thresholds) is numeric and is "
@@ -291,6 +291,7 @@ def run(facts, tr, rep):
                    "reset can return with %s untouched (e.g. through the transition function's same-state early return)" % fname)
     # ------------------------------------------------------------ HALF-OPEN-COUNT: sliding must not eat trial successes
     check_no_evict_in_half_open(cb, rep, "C04.HALF-OPEN-COUNT")
+    check_window_dispatch(cb, rep, "C04.WINDOW-DISPATCH")
     # ------------------------------------------------------------ SLIDE
     for rname in ("record_success", "record_failure"):
         rb = cb.by_role(rname)
